@@ -123,6 +123,10 @@ pub struct BatchStats {
     pub file_holds: u64,
     pub phases: u64,
     pub kills: u64,
+    pub io_plans: u64,
+    pub io_injected: [u64; 8],
+    pub power_losses: u64,
+    pub power_loss_files: u64,
     pub us_spawn: u64,
     pub us_total: u64,
     pub sched_nontrivial: BTreeSet<u64>,
@@ -203,6 +207,14 @@ pub fn run_batch(
                     bs.file_holds += g("fh");
                     bs.phases += g("phases");
                     bs.kills += g("kills");
+                    bs.io_plans += g("iop");
+                    bs.power_losses += g("pl");
+                    bs.power_loss_files += g("plf");
+                    if let Some(a) = v.get("iof").and_then(|x| x.as_array()) {
+                        for (k, x) in a.iter().enumerate().take(8) {
+                            bs.io_injected[k] += x.as_u64().unwrap_or(0);
+                        }
+                    }
                     bs.us_spawn += g("us_spawn");
                     bs.us_total += g("us_total");
                     bs.max_inflight = bs.max_inflight.max(g("mi"));
@@ -363,6 +375,9 @@ fn batch_json(b: &BatchStats) -> Value {
         "library_threads_adopted": b.lib_threads, "timed_waits_ended_by_the_scheduler": b.timeouts, "sleeps_intercepted": b.sleeps, "yields_intercepted": b.yields,
         "wakeups_from_outside_the_simulator": b.rescued,
         "library_file_operations_redirected_to_the_private_disk": b.file_ops, "file_operation_decision_points": b.file_points, "writers_held_back_after_a_file_operation": b.file_holds, "process_incarnations": b.phases, "processes_killed_mid_run": b.kills,
+        "process_incarnations_with_an_io_fault_plan": b.io_plans,
+        "io_faults_injected": crate::disk::IO_KINDS.iter().zip(b.io_injected.iter()).map(|(k, v)| (k.to_string(), *v)).collect::<BTreeMap<String, u64>>(),
+        "power_losses": b.power_losses, "files_that_lost_unsynced_data": b.power_loss_files,
         "runs_with_intra_call_preemption": b.runs_with_preempt,
         "distinct_schedules_with_intra_call_preemption": b.sched_nontrivial.len(),
         "max_calls_in_flight": b.max_inflight,
@@ -381,6 +396,124 @@ pub struct ChangeHints {
     pub files: Vec<String>,
     pub evs: Vec<Ev>,
     pub tokens: Vec<String>,
+    /// words and example expressions that only the added lines of the change contain (string and character
+    /// literals, `code spans` of comments and documentation): candidates for syntax the change introduces
+    pub new_words: Vec<String>,
+    pub new_examples: Vec<String>,
+}
+
+/// Candidates for new syntax: what the added lines of a diff quote. A tokenizer that learns a new word has to spell
+/// it somewhere - as a string literal ("deg:"), as a first character plus the rest ('d' ... "eg("), or in the
+/// documentation that announces it (`deg(sin(90))`).
+fn new_vocabulary(diff_all: &str) -> (Vec<String>, Vec<String>) {
+    let mut words: Vec<String> = Vec::new();
+    let mut examples: Vec<String> = Vec::new();
+    let mut old_text = String::new();
+    for l in diff_all.lines() {
+        if !l.starts_with('+') {
+            old_text.push_str(l);
+            old_text.push('\n');
+        }
+    }
+    let wordish = |w: &str| -> bool {
+        let n = w.chars().count();
+        n >= 1 && n <= 12 && !w.chars().any(|c| c.is_whitespace() || c == '{' || c == '}' || c == '/' || c == '\\' || c == '"' || c == '\'') && !w.starts_with("eval_") && !w.chars().all(|c| c.is_ascii_digit() || c == '.')
+    };
+    let mut recent_chars: Vec<(usize, char)> = Vec::new();
+    for (ln, l) in diff_all.lines().enumerate() {
+        if !l.starts_with('+') || l.starts_with("+++") {
+            continue;
+        }
+        let body: Vec<char> = l[1..].chars().collect();
+        let mut i = 0;
+        while i < body.len() {
+            match body[i] {
+                '"' => {
+                    let mut j = i + 1;
+                    let mut lit = String::new();
+                    while j < body.len() && body[j] != '"' {
+                        if body[j] == '\\' {
+                            lit.push('\\');
+                            j += 1;
+                        }
+                        if j < body.len() {
+                            lit.push(body[j]);
+                        }
+                        j += 1;
+                    }
+                    if j < body.len() && wordish(&lit) {
+                        words.push(lit.clone());
+                        for (cl, c) in recent_chars.iter() {
+                            if ln - cl <= 4 {
+                                words.push(format!("{}{}", c, lit));
+                            }
+                        }
+                    }
+                    i = j + 1;
+                }
+                '\'' if i + 2 < body.len() && body[i + 2] == '\'' && body[i + 1] != '\\' => {
+                    let c = body[i + 1];
+                    if !c.is_whitespace() && !c.is_ascii_digit() {
+                        recent_chars.push((ln, c));
+                        if !c.is_ascii_alphanumeric() {
+                            words.push(c.to_string());
+                        }
+                    }
+                    i += 3;
+                }
+                '`' => {
+                    let mut j = i + 1;
+                    let mut span = String::new();
+                    while j < body.len() && body[j] != '`' {
+                        span.push(body[j]);
+                        j += 1;
+                    }
+                    if j < body.len() && !span.is_empty() && span.chars().count() <= 60 && !span.contains("::") && !span.contains("eval_") {
+                        // `deg(x)` -> the word `deg(`; the span itself, with x as the placeholder, as an example
+                        let head: String = span.chars().take_while(|c| c.is_alphanumeric() || *c == '_').collect();
+                        let rest: String = span.chars().skip(head.chars().count()).collect();
+                        if !head.is_empty() && rest.starts_with('(') {
+                            words.push(format!("{}(", head));
+                        } else if !head.is_empty() && rest.starts_with(':') {
+                            words.push(format!("{}:", head));
+                        } else if wordish(&span) {
+                            words.push(span.clone());
+                        }
+                        if span.contains('(') || span.chars().any(|c| "+-*/^".contains(c)) {
+                            let ex = span.split('=').next().unwrap_or("").trim().to_string();
+                            if !ex.is_empty() {
+                                examples.push(ex.clone());
+                                examples.push(ex.replace("(x)", "(@)").replace("(x,", "(@,").replace(" x", " @"));
+                            }
+                        }
+                    }
+                    i = j + 1;
+                }
+                _ => i += 1,
+            }
+        }
+    }
+    // only what the old text does not already contain; known names of the library are not new either
+    let known: BTreeSet<&str> = workload::FN_TOKENS.iter().copied().collect();
+    let mut seen: BTreeSet<String> = BTreeSet::new();
+    let mut out: Vec<String> = Vec::new();
+    for w in words {
+        if known.contains(w.as_str()) || known.contains(format!("{}(", w).as_str()) || !seen.insert(w.clone()) {
+            continue;
+        }
+        let quoted_before = old_text.contains(&format!("\"{}\"", w)) || old_text.contains(&format!("`{}", w));
+        if quoted_before {
+            continue;
+        }
+        out.push(w);
+    }
+    // words with a shape of their own (a bracket, a colon, a symbol) first; plain short letter groups last
+    out.sort_by_key(|w| (w.chars().all(|c| c.is_ascii_alphanumeric()) as u8, (w.chars().count() < 2) as u8));
+    out.truncate(10);
+    examples.sort();
+    examples.dedup();
+    examples.truncate(24);
+    (out, examples)
 }
 
 fn variant_tokens(v: &str) -> &'static [&'static str] {
@@ -441,7 +574,7 @@ fn variant_tokens(v: &str) -> &'static [&'static str] {
 }
 
 pub fn change_hints(repo: &str, verif: &str) -> ChangeHints {
-    let mut h = ChangeHints { base: String::new(), files: Vec::new(), evs: Vec::new(), tokens: Vec::new() };
+    let mut h = ChangeHints { base: String::new(), files: Vec::new(), evs: Vec::new(), tokens: Vec::new(), new_words: Vec::new(), new_examples: Vec::new() };
     // base commit: the hook commit recorded in MANIFEST.json, else HEAD
     let base = std::fs::read_to_string(format!("{}/MANIFEST.json", verif))
         .ok()
@@ -468,6 +601,27 @@ pub fn change_hints(repo: &str, verif: &str) -> ChangeHints {
         },
     };
     h.base = used;
+    // vocabulary: the whole change, documentation included
+    if let Ok(out) = std::process::Command::new("git").args(["-C", repo, "diff", "-U3", "--no-color", "--no-ext-diff", &h.base]).stdin(std::process::Stdio::null()).stderr(std::process::Stdio::null()).output() {
+        if out.status.success() {
+            let mut all = String::from_utf8_lossy(&out.stdout).to_string();
+            // untracked new source files count as added lines
+            if let Ok(o2) = std::process::Command::new("git").args(["-C", repo, "ls-files", "--others", "--exclude-standard", "--", "src", "README.md", "CHANGELOG.md"]).stderr(std::process::Stdio::null()).output() {
+                for f in String::from_utf8_lossy(&o2.stdout).lines() {
+                    if let Ok(txt) = std::fs::read_to_string(format!("{}/{}", repo, f)) {
+                        for l in txt.lines() {
+                            all.push('+');
+                            all.push_str(l);
+                            all.push('\n');
+                        }
+                    }
+                }
+            }
+            let (w, e) = new_vocabulary(&all);
+            h.new_words = w;
+            h.new_examples = e;
+        }
+    }
     // untracked new files do not show in `git diff`: list them too
     if let Ok(out) = std::process::Command::new("git").args(["-C", repo, "ls-files", "--others", "--exclude-standard", "--", "src"]).stderr(std::process::Stdio::null()).output() {
         for l in String::from_utf8_lossy(&out.stdout).lines() {
@@ -653,8 +807,11 @@ pub fn write_replay_file(
         v["minimisation"] = json!({"candidates_run": m.candidates, "accepted": m.accepted, "wall_s": m.wall_s});
     }
     let cj = case.to_json();
-    for k in ["threads", "churn", "start", "switches", "clock_jumps", "stack_depths_kb", "cpu_limits"] {
-        v[k] = cj[k].clone();
+    // every field of the case, phases before and after included: the file alone must reproduce the run
+    if let Some(o) = cj.as_object() {
+        for (k, x) in o {
+            v[k.as_str()] = x.clone();
+        }
     }
     let _ = std::fs::write(&path, serde_json::to_string_pretty(&v).unwrap_or_default());
     path
@@ -743,7 +900,7 @@ pub fn check(o: &CheckOpts) -> i32 {
 
     // ---- pool and oracle
     let hints = change_hints(&o.repo, &o.verif);
-    let focus = if hints.files.is_empty() { None } else { Some(gen::PoolFocus { evs: hints.evs.clone(), tokens: hints.tokens.clone() }) };
+    let focus = if hints.files.is_empty() { None } else { Some(gen::PoolFocus { evs: hints.evs.clone(), tokens: hints.tokens.clone(), new_words: hints.new_words.clone(), new_examples: hints.new_examples.clone() }) };
     let cand = gen::build_pool(o.seed, &o.repo, &t.sizes, focus.as_ref());
     let (mut pool, ost): (Pool, OracleStats) = oracle::oracle_pass(cand, w, t.recheck_every);
     let mut ix = workload::index_pool(&mut pool);
@@ -780,7 +937,7 @@ pub fn check(o: &CheckOpts) -> i32 {
     // isolated nondeterminism: two isolated evaluations of the same call differ
     for (k, (call, a, b)) in ost.isolated_nondeterminism.iter().enumerate().take(3) {
         raw_violations += 1;
-        let case = Case { threads: vec![vec![call.clone()]], churn: vec![vec![]], start: 0, switches: vec![], jumps: vec![vec![]], depths: vec![vec![]], cpus: vec![0], entropy: 0, kill_step: 0, prefix: Vec::new(), next: None };
+        let case = Case { threads: vec![vec![call.clone()]], churn: vec![vec![]], start: 0, switches: vec![], jumps: vec![vec![]], depths: vec![vec![]], cpus: vec![0], entropy: 0, kill_step: 0, io_fault: 0, power: 0, prefix: Vec::new(), next: None };
         let rr = RunResult {
             status: "violation".into(),
             rec: json!({"violation": {"kind": "isolated_nondeterminism", "call": call.to_json(), "expected": a, "observed": b, "client": 0, "call_no": 0}}),
@@ -800,7 +957,7 @@ pub fn check(o: &CheckOpts) -> i32 {
     }
     for (k, (call, a, b)) in amb.mismatches.iter().enumerate().take(2) {
         raw_violations += 1;
-        let case = Case { threads: vec![vec![call.clone()]], churn: vec![vec![]], start: 0, switches: vec![], jumps: vec![vec![]], depths: vec![vec![]], cpus: vec![0], entropy: 0, kill_step: 0, prefix: Vec::new(), next: None };
+        let case = Case { threads: vec![vec![call.clone()]], churn: vec![vec![]], start: 0, switches: vec![], jumps: vec![vec![]], depths: vec![vec![]], cpus: vec![0], entropy: 0, kill_step: 0, io_fault: 0, power: 0, prefix: Vec::new(), next: None };
         let rr = RunResult {
             status: "violation".into(),
             rec: json!({"violation": {"kind": "isolated_nondeterminism", "detail": "differs between a forked child of the driver and a freshly exec'd process with another environment / address-space layout", "call": call.to_json(), "expected": a, "observed": b, "client": 0, "call_no": 0}}),
@@ -1115,7 +1272,7 @@ pub fn check(o: &CheckOpts) -> i32 {
             });
             let _ = std::fs::write(&path, serde_json::to_string_pretty(&v).unwrap_or_default());
             let class = ("any".to_string(), kind.to_string());
-            let case = Case { threads: vec![], churn: vec![], start: 0, switches: vec![], jumps: vec![], depths: vec![], cpus: vec![], entropy: 0, kill_step: 0, prefix: Vec::new(), next: None };
+            let case = Case { threads: vec![], churn: vec![], start: 0, switches: vec![], jumps: vec![], depths: vec![], cpus: vec![], entropy: 0, kill_step: 0, io_fault: 0, power: 0, prefix: Vec::new(), next: None };
             let kn = match_known(&known, &class, &case);
             findings.push(Finding { file: path, class, case, known: kn, confidence: format!("{} of {} Miri seeds fail", m.failing_seeds.len(), m.seeds) });
         }
@@ -1141,6 +1298,11 @@ pub fn check(o: &CheckOpts) -> i32 {
     for k in 0..10 {
         fired.insert(FAULT_NAMES[k].to_string(), json!(f[k]));
     }
+    // F11: faults of the disk seam (fired = actually injected into a library file operation; on a tree whose library
+    // touches no file there is nothing to inject into, and the count says so)
+    fired.insert("F11_io_errors_and_short_transfers_injected".to_string(), json!(batches.iter().map(|b| b.io_injected.iter().sum::<u64>()).sum::<u64>()));
+    fired.insert("F11_process_incarnations_with_an_io_fault_plan".to_string(), json!(batches.iter().map(|b| b.io_plans).sum::<u64>()));
+    fired.insert("F11_power_losses_between_incarnations".to_string(), json!(batches.iter().map(|b| b.power_losses).sum::<u64>()));
     let mut pair_list: Vec<Value> = Vec::new();
     for ((a, b), n) in &pairs {
         pair_list.push(json!([SITE_NAMES[*a as usize], SITE_NAMES[*b as usize], n]));
@@ -1191,6 +1353,9 @@ pub fn check(o: &CheckOpts) -> i32 {
                 "library_file_operations_redirected_to_the_private_disk": batches.iter().map(|b| b.file_ops).sum::<u64>(),
                 "process_incarnations_in_restart_runs": batches.iter().map(|b| b.phases).sum::<u64>(),
                 "processes_killed_mid_run": batches.iter().map(|b| b.kills).sum::<u64>(),
+                "process_incarnations_with_an_io_fault_plan": batches.iter().map(|b| b.io_plans).sum::<u64>(),
+                "io_faults_injected": batches.iter().map(|b| b.io_injected.iter().sum::<u64>()).sum::<u64>(),
+                "power_losses_between_incarnations": batches.iter().map(|b| b.power_losses).sum::<u64>(),
                 "private_disk_per_item": crate::disk::probe(),
                 "shared_access_hits": batches.iter().map(|b| b.shared_hits).sum::<u64>(),
                 "block_ticks": batches.iter().map(|b| b.block_ticks).sum::<u64>(),
@@ -1203,7 +1368,7 @@ pub fn check(o: &CheckOpts) -> i32 {
             "uncontrolled_sources": audit,
             "ambient_recheck": {"ran": amb.ran, "reason": amb.reason, "calls": amb.calls, "compared": amb.compared, "mismatches": amb.mismatches.len(),
                                 "perturbed": ["address-space layout (fresh exec, ASLR)", "pid", "wall-clock time", "environment variables (cleared and scrambled: TZ, LANG, LC_ALL, HOME, PATH, TMPDIR, RUST_BACKTRACE, RUST_MIN_STACK)", "working directory"]},
-            "change_focus": {"base": hints.base, "files_differing": hints.files, "evaluators": hints.evs.iter().map(|e| e.name()).collect::<Vec<_>>(), "tokens": hints.tokens,
+            "change_focus": {"base": hints.base, "files_differing": hints.files, "evaluators": hints.evs.iter().map(|e| e.name()).collect::<Vec<_>>(), "tokens": hints.tokens, "new_words_quoted_by_added_lines": hints.new_words, "example_expressions_quoted_by_added_lines": hints.new_examples,
                              "function_buckets": ix.fn_buckets.len(), "preferred_buckets": ix.hint_buckets.len(),
                              "note": "direction only: 70% of the function-themed runs (40% of short/wide runs are themed) draw their theme from the preferred buckets; on an unchanged tree there is no diff and no direction"},
             "granularity": if crate::tick::bb_guards() > 0 { format!("basic_block ({} instrumented block edges in the library crates) + source ticks", crate::tick::bb_guards()) } else { "source ticks only (block instrumentation not available)".to_string() },
@@ -1245,6 +1410,13 @@ pub fn check(o: &CheckOpts) -> i32 {
         let fo: u64 = batches.iter().map(|b| b.file_ops).sum();
         if fo > 0 {
             println!("files of the library itself: {} path operations redirected to the runs' private disks; {} process incarnations in restart runs, {} of them killed mid-run", fo, batches.iter().map(|b| b.phases).sum::<u64>(), batches.iter().map(|b| b.kills).sum::<u64>());
+            let mut inj = [0u64; 8];
+            for b in batches.iter() {
+                for k in 0..8 {
+                    inj[k] += b.io_injected[k];
+                }
+            }
+            println!("  injected I/O faults: {}; {} power losses between incarnations, {} files lost unsynced data", crate::disk::IO_KINDS.iter().zip(inj.iter()).map(|(k, v)| format!("{} {}", k, v)).collect::<Vec<_>>().join(", "), batches.iter().map(|b| b.power_losses).sum::<u64>(), batches.iter().map(|b| b.power_loss_files).sum::<u64>());
         }
     }
     if evaluations == 0 {
@@ -1457,7 +1629,7 @@ pub fn unused(_: Exit) {}
 pub fn debug_seed(o: &CheckOpts, stream: u64, idx: usize, reps: usize, pad: usize) -> i32 {
     let t = tier("quick");
     let hints = change_hints(&o.repo, &o.verif);
-    let focus = if hints.files.is_empty() { None } else { Some(gen::PoolFocus { evs: hints.evs.clone(), tokens: hints.tokens.clone() }) };
+    let focus = if hints.files.is_empty() { None } else { Some(gen::PoolFocus { evs: hints.evs.clone(), tokens: hints.tokens.clone(), new_words: hints.new_words.clone(), new_examples: hints.new_examples.clone() }) };
     let cand = gen::build_pool(o.seed, &o.repo, &t.sizes, focus.as_ref());
     let (mut pool, _ost) = oracle::oracle_pass(cand, o.workers, 0);
     let mut ix = workload::index_pool(&mut pool);
